@@ -10,6 +10,12 @@ Known finding (KNOWN_FINDINGS.txt, open): DB.insert stores set((pkg)) - the char
 that is new.  The reference is run in two variants, the specification and the specification with exactly that
 defect injected; a history is attributed to the known finding only if the implementation agrees with the defect
 variant at every step.  Exploration continues behind the defect with the defect variant as the reference.
+
+Routes ("the other way in"): an operation name may carry a route suffix, "<operation>@<route>".  The reference treats
+"x@route" exactly as "x"; only the way the implementation is driven differs (camelCase deprecated aliases, pickle /
+qwrite+qread / copy.deepcopy as ways of obtaining an independent copy, qread and read(tag_filter=...) as ways of
+re-reading into a live object, a DB() that never read anything).  Route operations are offered as the FIRST operation
+of a history; everything after them is the ordinary alphabet.
 """
 import re
 
@@ -38,18 +44,52 @@ FILES = [
 SUBS = [("a",), ("a", "pp", "zz"), ()]
 PRED_P = ("a", "pp")
 
+# deprecated camelCase spellings of the derivations and of the query methods (function_deprecated_by wrappers)
+ALIAS = {"reverse_copy": "reverseCopy", "facet": "facetCollection", "choose": "choosePackages",
+         "choose_copy": "choosePackagesCopy", "fp": "filterPackages", "fpc": "filterPackagesCopy",
+         "fpt": "filterPackagesTags", "fptc": "filterPackagesTagsCopy", "ft": "filterTags", "ftc": "filterTagsCopy"}
+COPY_ROUTES = ("deepcopy", "pickle", "qwrite-qread")
+# starts below which the alias derivations are explored to the full depth
+ALIAS_STARTS_QUICK = [(1, False), (2, False), (6, True)]
+ALIAS_STARTS_THOROUGH = ALIAS_STARTS_QUICK + [(3, False), (5, True)]
+MODULE_ROUTES = ("read_tag_database", "readTagDatabase", "read_tag_database_reversed", "readTagDatabaseReversed",
+                 "read_tag_database_both_ways", "readTagDatabaseBothWays", "read_tag_database_both_ways/keyword",
+                 "reverse", "parse_tags", "parseTags", "DB.read/positional-filter", "DB.read/two-objects")
+
 
 def bounds(tier):
     return {"tag_files": len(FILES), "read_with_tag_filter": True, "packages": PK, "tag_subsets": TAGSETS, "pool": 3,
             "depth": 3 if tier == "quick" else 4,
-            "insert_alphabet_at_depth_4": "packages a, pp x 3 tag subsets"}
+            "insert_alphabet_at_depth_4": "packages a, pp x 3 tag subsets",
+            "starts": "DB().read(file[, tag_filter]) for every file; a DB() that never read anything (depth - 1)",
+            "route_operations_first_in_a_history": {
+                "depth-1 below them": ["copy@deepcopy", "copy@pickle", "copy@qwrite-qread (qwrite, then qread into a new DB)",
+                                       "read@qread (a live object re-read from a pickle, files 1 and 6)",
+                                       "read@tf (a live object re-read with keyword arguments and a tag_filter)",
+                                       "new (a second DB() next to the first)", "choose_copy@iter (one-shot iterator)"],
+                "full depth below them": ["%s@alias (%s)" % kv for kv in sorted(ALIAS.items())],
+                "starts_for_full_depth": ALIAS_STARTS_THOROUGH if tier != "quick" else ALIAS_STARTS_QUICK},
+            "module_level_routes_per_file_and_filter": list(MODULE_ROUTES),
+            "read_source_kinds_per_file_and_filter": list(READ_KINDS),
+            "query_aliases": "every history that is extended further (length < depth) is also read through hasPackage, "
+                             "hasTag, tagsOfPackage, packagesOfTag, packageCount, tagCount, iterPackages, iterTags, "
+                             "iterPackagesTags, iterTagsPackages; discriminance(tag) is read at every observation",
+            "insert_argument": "the set handed to insert() is changed by the caller right after every insert"}
 
 
 def assumptions():
     return ["objects documented as sharing sets with their source are unspecified once the other side is mutated",
             "re-inserting an existing package and the same package on two input lines are outside the domain",
             "dict/set iteration order of the implementation is an environment answer (given to the model)",
-            "tag_count/package_count count the keys of the respective index, as the derivations define them"]
+            "tag_count/package_count count the keys of the respective index, as the derivations define them",
+            "a route suffix (x@alias, copy@pickle, read@qread ...) changes how the implementation is driven, never what "
+            "the reference expects: camelCase names are documented pass-through wrappers; deepcopy / pickle / "
+            "qwrite+qread of a database give an independent database with the same pairs",
+            "discriminance(tag) = min(card, package_count - card) as its docstring defines it",
+            "left out: tags_of_packages / packages_of_tags (docstring says 'all', the code computes a union - the "
+            "statement names neither), ideal_tagset, correlations, relevance_index_function, dump / dump_reverse / "
+            "output (write to stdout; not among the reads, derivations or queries of the statement), non-set "
+            "arguments to insert (frozenset has no independent copy()), predicates returning non-bool values"]
 
 
 def pred_p(p):
@@ -144,8 +184,8 @@ _gid = [0]
 
 
 def m_step(models, op, defect, order=None):
-    """apply op to the reference pool (in place / appending)"""
-    t = op[0]
+    """apply op to the reference pool (in place / appending); a route suffix does not change the meaning"""
+    t, _, route = op[0].partition("@")
     m = models[op[1]]
     if t == "insert":
         m_insert(m, op[2], TAGSETS[op[3]], defect)
@@ -157,11 +197,13 @@ def m_step(models, op, defect, order=None):
     new = _gid[0]
     if t == "read":
         # read() rebinds both indexes to fresh dictionaries: the object leaves its alias group, nobody else changes
-        m.db = parse_file(FILES[op[2]], False)
+        m.db = parse_file(FILES[op[2]], route == "tf")
         m.rdb = m_rev(m.db)
         m.group = new
         return
-    if t == "copy":
+    if t == "new":
+        nm = M({}, {}, new)
+    elif t == "copy":
         nm = M(cp(m.db), cp(m.rdb), new)
     elif t == "reverse":
         nm = M(m.rdb, m.db, m.group)
@@ -190,16 +232,58 @@ def m_step(models, op, defect, order=None):
 
 
 def i_step(objs, op):
-    t = op[0]
+    import copy
+    import io
+    import pickle
+    from debian.debtags import DB
+    t, _, route = op[0].partition("@")
     o = objs[op[1]]
     if t == "insert":
-        o.insert(op[2], set(TAGSETS[op[3]]))
+        given = set(TAGSETS[op[3]])
+        o.insert(op[2], given)
+        # the caller's set is the caller's: what happens to it afterwards is not part of the database
+        given.add("zz-late")
+        given.discard("t")
         return None
     if t == "read":
-        o.read(iter(FILES[op[2]]))
+        if route == "qread":
+            src = DB()
+            src.read(iter(FILES[op[2]]))
+            buf = io.BytesIO()
+            src.qwrite(buf)
+            buf.seek(0)
+            o.qread(buf)
+        elif route == "tf":
+            o.read(input_data=iter(FILES[op[2]]), tag_filter=pred_t)
+        else:
+            o.read(iter(FILES[op[2]]))
         return None
     order = None
-    if t == "copy":
+    if route == "alias":
+        f = getattr(o, ALIAS[t])
+        if t == "facet":
+            order = [p for p, _ in o.iter_packages_tags()]
+            n = f()
+        elif t in ("choose", "choose_copy"):
+            n = f(SUBS[op[2]])
+        else:
+            n = f({"fp": pred_p, "fpc": pred_p, "fpt": pred_pt, "fptc": pred_pt, "ft": pred_t, "ftc": pred_t}[t]) \
+                if t != "reverse_copy" else f()
+    elif t == "new":
+        n = DB()
+    elif t == "copy" and route == "deepcopy":
+        n = copy.deepcopy(o)
+    elif t == "copy" and route == "pickle":
+        n = pickle.loads(pickle.dumps(o))
+    elif t == "copy" and route == "qwrite-qread":
+        buf = io.BytesIO()
+        o.qwrite(buf)
+        buf.seek(0)
+        n = DB()
+        n.qread(buf)
+    elif t == "choose_copy" and route == "iter":
+        n = o.choose_packages_copy(iter(SUBS[op[2]]))
+    elif t == "copy":
         n = o.copy()
     elif t == "reverse":
         n = o.reverse()
@@ -256,6 +340,9 @@ def observe(o, m, strict_inverse):
             return ("query:card", len(m.rdb.get(t, ())), o.card(t))
         if o.has_tag(t) != (t in m.rdb):
             return ("query:has_tag", t in m.rdb, o.has_tag(t))
+        n = len(m.rdb.get(t, ()))
+        if o.discriminance(t) != min(n, len(m.db) - n):
+            return ("query:discriminance", min(n, len(m.db) - n), o.discriminance(t))
     if o.package_count() != len(m.db):
         return ("query:package_count", len(m.db), o.package_count())
     if o.tag_count() != len(m.rdb):
@@ -267,11 +354,37 @@ def observe(o, m, strict_inverse):
     return None
 
 
-def build(fi, tag_filter, hist, defect, check_from=0):
-    """replay a history on fresh objects.  -> (models, objs, None) or (None, None, (step, what, exp, obs))"""
+def observe_alias(o, m):
+    """the same readings through the deprecated camelCase spellings of the query methods"""
+    for p in list(m.db) + ["zz-absent"]:
+        if o.tagsOfPackage(p) != m.db.get(p, set()):
+            return ("query-alias:tagsOfPackage", m.db.get(p, set()), o.tagsOfPackage(p))
+        if o.hasPackage(p) != (p in m.db):
+            return ("query-alias:hasPackage", p in m.db, o.hasPackage(p))
+    for t in list(m.rdb) + ["zz-absent"]:
+        if o.packagesOfTag(t) != m.rdb.get(t, set()):
+            return ("query-alias:packagesOfTag", m.rdb.get(t, set()), o.packagesOfTag(t))
+        if o.hasTag(t) != (t in m.rdb):
+            return ("query-alias:hasTag", t in m.rdb, o.hasTag(t))
+    if o.packageCount() != len(m.db):
+        return ("query-alias:packageCount", len(m.db), o.packageCount())
+    if o.tagCount() != len(m.rdb):
+        return ("query-alias:tagCount", len(m.rdb), o.tagCount())
+    if set(o.iterPackages()) != set(m.db) or set(o.iterTags()) != set(m.rdb):
+        return ("query-alias:iter", (sorted(m.db), sorted(m.rdb)), (sorted(o.iterPackages()), sorted(o.iterTags())))
+    if dict(o.iterPackagesTags()) != m.db or dict(o.iterTagsPackages()) != m.rdb:
+        return ("query-alias:iter_pairs", (m.db, m.rdb), (dict(o.iterPackagesTags()), dict(o.iterTagsPackages())))
+    return None
+
+
+def build(fi, tag_filter, hist, defect, check_from=0, start="read", alias_obs=False):
+    """replay a history on fresh objects.  -> (models, objs, None) or (None, None, (step, what, exp, obs))
+    start: "read" = DB().read(FILES[fi]);  "fresh" = a DB() that never read anything (fi must be 0)"""
     from debian.debtags import DB
     d = DB()
-    if tag_filter:
+    if start == "fresh":
+        pass
+    elif tag_filter:
         d.read(iter(FILES[fi]), tag_filter=pred_t)
     else:
         d.read(iter(FILES[fi]))
@@ -279,8 +392,8 @@ def build(fi, tag_filter, hist, defect, check_from=0):
     mdb = parse_file(FILES[fi], tag_filter)
     models = [M(mdb, m_rev(mdb), 0)]
     objs = [d]
-    if check_from <= 0:
-        bad = observe(d, models[0], not defect)
+    if check_from <= 0 or start == "fresh":
+        bad = observe(d, models[0], not defect) or ((alias_obs and not hist) and observe_alias(d, models[0])) or None
         if bad:
             return None, None, (-1,) + bad
     for n, op in enumerate(hist):
@@ -288,25 +401,30 @@ def build(fi, tag_filter, hist, defect, check_from=0):
             order = i_step(objs, op)
         except Exception as e:
             return None, None, (n, "raises", "no exception", "%s: %r" % (type(e).__name__, e))
+        if order is not None and set(order) != set(models[op[1]].db):
+            # the object did not hold what the (already validated) prefix leaves behind: state from outside the history
+            return None, None, (n, "packages-before-step", sorted(models[op[1]].db), sorted(order))
         m_step(models, op, defect, order)
         if n + 1 >= check_from:
             for o, m in zip(objs, models):
                 if not m.ok:
                     continue
                 bad = observe(o, m, not defect)
+                if not bad and alias_obs and n + 1 == len(hist):
+                    bad = observe_alias(o, m)
                 if bad:
-                    if o is not objs[op[1]] and not (op[0] not in ("insert", "read") and o is objs[-1]):
+                    if o is not objs[op[1]] and not (op[0].partition("@")[0] not in ("insert", "read") and o is objs[-1]):
                         bad = ("independent-object-changed/" + bad[0],) + bad[1:]
                     return None, None, (n,) + bad
     return models, objs, None
 
 
-def judge(fi, tag_filter, hist, check_from=0):
+def judge(fi, tag_filter, hist, check_from=0, start="read", alias_obs=False):
     """-> (verdict, models, detail)  verdict in ok | known | violation"""
-    models, objs, bad = build(fi, tag_filter, hist, False, check_from)
+    models, objs, bad = build(fi, tag_filter, hist, False, check_from, start, alias_obs)
     if bad is None:
         return "ok", models, None
-    models2, _objs2, bad2 = build(fi, tag_filter, hist, True, 0)
+    models2, _objs2, bad2 = build(fi, tag_filter, hist, True, 0, start, alias_obs)
     if bad2 is None:
         return "known", models2, bad
     # neither variant explains the implementation; report against the variant that got further
@@ -352,35 +470,173 @@ def read_kind(fi, tag_filter, kind):
     return observe(d, M(mdb, m_rev(mdb), 0), True)
 
 
-def units(tier, seed):
+def m_lines(lines):
+    """reference for parse_tags: one (packages, tags) pair per line"""
+    out = []
+    for l in lines:
+        l = l.rstrip("\n")
+        if ":" in l:
+            ps, ts = l.split(":", 1)
+            ts = set(x for x in ts.strip().split(", ") if x)
+        else:
+            ps, ts = l, set()
+        out.append((set(ps.split(", ")), ts))
+    return out
+
+
+def module_route(fi, tag_filter, name):
+    """the same tag file through the module-level readers, their deprecated spellings, and other ways of calling
+    DB.read.  -> None (passes or not applicable) | (what, expected, observed)"""
+    import warnings
+    from debian import debtags
+    lines = FILES[fi]
+    mdb = parse_file(lines, tag_filter)
+    mrdb = m_rev(mdb)
+    flt = pred_t if tag_filter else None
+    try:
+        with warnings.catch_warnings():
+            warnings.simplefilter("ignore")
+            if name in ("read_tag_database", "readTagDatabase"):
+                if tag_filter:
+                    return None
+                got = getattr(debtags, name)(l for l in lines)
+                return None if got == mdb else ("db", mdb, got)
+            if name in ("read_tag_database_reversed", "readTagDatabaseReversed"):
+                if tag_filter:
+                    return None
+                got = getattr(debtags, name)(l for l in lines)
+                return None if got == mrdb else ("rdb", mrdb, got)
+            if name in ("read_tag_database_both_ways", "readTagDatabaseBothWays", "read_tag_database_both_ways/keyword"):
+                if name.endswith("/keyword"):
+                    got = debtags.read_tag_database_both_ways(input_data=(l for l in lines), tag_filter=flt)
+                elif tag_filter:
+                    got = getattr(debtags, name)((l for l in lines), flt)
+                else:
+                    got = getattr(debtags, name)(l for l in lines)
+                if not isinstance(got, tuple) or len(got) != 2:
+                    return ("result", "a (db, rdb) pair", got)
+                if got[0] != mdb:
+                    return ("db", mdb, got[0])
+                if got[1] != mrdb:
+                    return ("rdb", mrdb, got[1])
+                # the two dictionaries are handed to the caller: filling them into a DB must give a sound database
+                d = debtags.DB()
+                d.db, d.rdb = got
+                return observe(d, M(mdb, mrdb, 0), True)
+            if name == "reverse":
+                got = debtags.reverse(cp(mdb))
+                if got != mrdb:
+                    return ("rdb", mrdb, got)
+                got = debtags.reverse(cp(mrdb))
+                return None if got == {p: ts for p, ts in mdb.items() if ts} else ("db", mdb, got)
+            if name in ("parse_tags", "parseTags"):
+                if tag_filter:
+                    return None
+                got = [(set(a), set(b)) for a, b in getattr(debtags, name)(l for l in lines)]
+                return None if got == m_lines(lines) else ("pairs", m_lines(lines), got)
+            if name == "DB.read/positional-filter":
+                d = debtags.DB()
+                d.read((l for l in lines), flt)
+                return observe(d, M(mdb, mrdb, 0), True)
+            if name == "DB.read/two-objects":
+                # two databases alive at once, read alternately from different files; each judged as if alone
+                fj = (fi + 2) % len(FILES)
+                odb = parse_file(FILES[fj], False)
+                d1, d2 = debtags.DB(), debtags.DB()
+                d1.read(iter(lines), tag_filter=flt)
+                d2.read(iter(FILES[fj]))
+                bad = observe(d1, M(mdb, mrdb, 0), True) or observe(d2, M(odb, m_rev(odb), 0), True)
+                if bad:
+                    return bad
+                d2.read(iter(lines), tag_filter=flt)
+                d1.read(iter(FILES[fj]))
+                return observe(d2, M(mdb, mrdb, 0), True) or observe(d1, M(odb, m_rev(odb), 0), True)
+    except Exception as e:
+        return ("raises", "no exception", "%s: %s" % (type(e).__name__, e))
+    raise AssertionError(name)
+
+
+def sig_for(hist, n, what, start):
+    """classification of a failing step: the operation, what differs, and - when the history was entered through a
+    route operation or from a DB() that never read - that way in"""
+    op = hist[n][0] if n >= 0 else start
+    way = ""
+    if hist and n != 0 and ("@" in hist[0][0] or hist[0][0] == "new"):
+        way = "after-%s/" % hist[0][0]
+    elif start != "read" and n >= 0:
+        way = "from-%s-DB/" % start
+    return "debtags/%s%s/%s" % (way, op, what)
+
+
+def starts():
     out = []
     for fi in range(len(FILES)):
         for tf in (False, True):
             if tf and fi not in (1, 2, 5, 6):
                 continue
-            models = [M(parse_file(FILES[fi], tf), {}, 0)]
-            models[0].rdb = m_rev(models[0].db)
-            for op in ops_for(models, 9, False):
-                out.append({"file": fi, "tf": tf, "first": op})
+            out.append((fi, tf, "read"))
+    out.append((0, False, "fresh"))
     return out
+
+
+def route_first_ops(m):
+    """-> (cheap, alias): route operations offered as the first operation of a history on the start object"""
+    cheap = [("copy@" + r, 0) for r in COPY_ROUTES]
+    cheap += [("read@qread", 0, 1), ("read@qread", 0, 6), ("read@tf", 0, 1), ("read@tf", 0, 6), ("new", 0)]
+    cheap += [("choose_copy@iter", 0, si) for si in range(len(SUBS)) if all(p in m.db for p in SUBS[si])]
+    alias = [(d + "@alias", 0) for d in ("reverse_copy", "facet", "fp", "fpc", "fpt", "fptc", "ft", "ftc")]
+    alias += [("choose@alias", 0, si) for si in range(len(SUBS))]
+    alias += [("choose_copy@alias", 0, si) for si in range(len(SUBS)) if all(p in m.db for p in SUBS[si])]
+    return cheap, alias
+
+
+def units(tier, seed):
+    out = []
+    routes = []
+    for fi, tf, start in starts():
+        mdb = parse_file(FILES[fi], tf)
+        models = [M(mdb, m_rev(mdb), 0)]
+        # the never-read DB() differs from DB().read([]) only in where its dictionaries come from: one level less
+        extra = {} if start == "read" else {"start": start, "less": 1}
+        first = True
+        for op in ops_for(models, 9, False):
+            out.append(dict({"file": fi, "tf": tf, "first": op}, **extra))
+            if first and start == "read":
+                out[-1]["static"] = True
+            first = False
+        cheap, alias = route_first_ops(models[0])
+        for op in cheap:
+            routes.append(dict({"file": fi, "tf": tf, "first": op, "less": 1}, **extra))
+        if start == "read" and (fi, tf) in (ALIAS_STARTS_QUICK if tier == "quick" else ALIAS_STARTS_THOROUGH):
+            for op in alias:
+                routes.append(dict({"file": fi, "tf": tf, "first": op}, **extra))
+    return out + routes
+
+
+def unit_cost(u, tier):
+    return 1 if u.get("less") else 40
 
 
 def run_unit(u, tier, seed):
     part = core.Part()
-    depth = 3 if tier == "quick" else 4
+    depth = (3 if tier == "quick" else 4) - u.get("less", 0)
     fi, tf = u["file"], u["tf"]
+    start = u.get("start", "read")
     base = {"file": fi, "tag_filter": tf}
+    if start != "read":
+        base["start"] = start
 
     def rec(hist, known):
-        verdict, models, detail = judge(fi, tf, hist, check_from=len(hist) if not known else 0)
+        # histories that are extended further are additionally read through the deprecated query spellings
+        verdict, models, detail = judge(fi, tf, hist, check_from=len(hist) if not known else 0, start=start,
+                                        alias_obs=len(hist) < depth)
         part.transitions += 1
         part.evaluations += 1
         part.states += 1
         case = dict(base, history=list(hist))
         if verdict == "violation":
             n, what, exp, obs = detail
-            op = hist[n][0] if n >= 0 else "read"
-            part.violation("debtags/%s/%s" % (op, what), case, exp, obs, rank=len(hist))
+            part.violation(sig_for(hist, n, what, start), case, exp, obs, rank=len(hist))
             return
         if verdict == "known":
             if not known:
@@ -388,6 +644,10 @@ def run_unit(u, tier, seed):
             part.outcomes["behind-known-defect"] += 1
         else:
             part.outcomes[hist[-1][0]] += 1
+        if "@" in hist[0][0] or hist[0][0] == "new" or start != "read":
+            part.extra["histories starting with a route operation or from a DB() that never read"] += 1
+        if len(hist) < depth:
+            part.extra["histories also read through the camelCase query aliases"] += 1
         nspec = sum(1 for m in models if m.ok)
         if nspec >= 2 or hist[-1][1] > 0:
             part.nontrivial += 1
@@ -398,11 +658,20 @@ def run_unit(u, tier, seed):
         for op in ops_for(models, depth - len(hist), small):
             rec(hist + [op], known or verdict == "known")
 
-    _m, _o, bad0 = build(fi, tf, [], False, 0)
+    _m, _o, bad0 = build(fi, tf, [], False, 0, start, True)
     if bad0:
-        part.violation("debtags/read/%s" % bad0[1], dict(base, history=[]), bad0[2], bad0[3], rank=0)
+        part.violation("debtags/%s/%s" % (start, bad0[1]), dict(base, history=[]), bad0[2], bad0[3], rank=0)
         return part
-    if u["first"] == ops_for([M(parse_file(FILES[fi], tf), m_rev(parse_file(FILES[fi], tf)), 0)], 9, False)[0]:
+    if u.get("static"):
+        # once per (file, filter): the module-level readers, their deprecated spellings, other ways of calling read
+        for name in MODULE_ROUTES:
+            bad = module_route(fi, tf, name)
+            part.evaluations += 1
+            part.traces += 1
+            part.outcomes["via-" + name] += 1
+            if bad:
+                part.violation("debtags/via-%s/%s" % (name, bad[0]), dict(base, history=[], module_route=name),
+                               bad[1], bad[2], rank=0)
         # once per (file, filter): the same lines supplied as the other kinds of line source read() accepts
         for kind in READ_KINDS:
             bad = read_kind(fi, tf, kind)
@@ -417,15 +686,18 @@ def run_unit(u, tier, seed):
 
 
 def replay(case):
+    if case.get("module_route"):
+        bad = module_route(case["file"], case["tag_filter"], case["module_route"])
+        return [("debtags/via-%s/%s" % (case["module_route"], bad[0]), bad[1], bad[2])] if bad else []
     if case.get("read_kind"):
         bad = read_kind(case["file"], case["tag_filter"], case["read_kind"])
         return [("debtags/read-%s/%s" % (case["read_kind"], bad[0]), bad[1], bad[2])] if bad else []
     hist = [tuple(op) for op in case["history"]]
-    verdict, _m, detail = judge(case["file"], case["tag_filter"], hist, 0)
+    start = case.get("start", "read")
+    verdict, _m, detail = judge(case["file"], case["tag_filter"], hist, 0, start, True)
     if verdict == "ok":
         return []
     if verdict == "known":
         return [(KF_SIG, detail[2], detail[3])]
     n, what, exp, obs = detail
-    op = hist[n][0] if n >= 0 else "read"
-    return [("debtags/%s/%s" % (op, what), exp, obs)]
+    return [(sig_for(hist, n, what, start), exp, obs)]
